@@ -52,12 +52,11 @@ Definition key_eq (a b : key) : bool :=
    field order (known finding F08 of C06/C07: the MessagePack specification has nanoseconds first);
    it is taken as given here so that C03 speaks about the scopes and not about F08 again *)
 Definition ts_lib (s : list N) : option (Z * Z) :=
-  match length s with
-  | 4%nat => Some (Z.of_N (be_val s), 0%Z)
-  | 8%nat => let d := be_val s in Some (Z.of_N (d mod 2 ^ 34), Z.of_N (d / 2 ^ 34))
-  | 12%nat => Some (to_signed 64 (be_val (firstn 8 s)), to_signed 32 (be_val (skipn 8 s)))
-  | _ => None
-  end.
+  let n := N.of_nat (length s) in
+  if n =? 4 then Some (Z.of_N (be_val s), 0%Z)
+  else if n =? 8 then let d := be_val s in Some (Z.of_N (d mod 2 ^ 34), Z.of_N (d / 2 ^ 34))
+  else if n =? 12 then Some (to_signed 64 (be_val (firstn 8 s)), to_signed 32 (be_val (skipn 8 s)))
+  else None.
 
 (* the key a document value denotes, if it is of a supported key kind *)
 Definition keyden (v : mpv) : option key :=
